@@ -55,6 +55,16 @@ CLAIMED = {
         "labels = original positions, fill rows missing.",
    note="All-miss 'drop' lists and explicitly supplied duplicate dimension names are outside the quantifier and not generated.",
    ref="5 C05"),
+ "C07": dict(
+   text="TLC checks exhaustively over every boolean array of the configured shapes (quick <= 3x3, thorough <= 4x4) x buffer 0..3 "
+        "that the operational ring growing (padded copy + window) equals the Chebyshev neighbourhood, smear equals edge / node "
+        "incidence, growing is monotone, and mesh renumbering tables are contiguous and order preserving; the implementation's "
+        "blur_mask / smear_mask are run on that whole universe (TLC checks enumeration order and counts, so completeness is "
+        "verified), c_mask_from_centres on all arrays <= 3x3, and make_clip_mask on every convention x a catalogue of lattice "
+        "geometries x buffers (hit sets by exact integer geometry, touching counts), buffer_faces and mask_from_face_indexes "
+        "on meshes up to ~60 faces; all validated by TLC (Trace_C07).",
+   note="Clip scenarios are generated (not exhaustive); exact lattice geometry; valid 2-D meshes.",
+   ref="5 C07"),
  "C15": dict(
    text="TLC checks on the bounded universe that the specification's export list (valid cells only, ascending, each with its "
         "linear and native index) satisfies OnlyValidCells / EveryValidCellOnce / LinearOrder / IndexesIdentifyCell; files written "
